@@ -74,7 +74,16 @@ impl SwiftField for Field61 {
         // Parse optional entry date (4 digits)
         let mut entry_date = None;
         if pos + 4 <= input.len() && input[pos..pos + 4].chars().all(|c| c.is_ascii_digit()) {
-            entry_date = Some(input[pos..pos + 4].to_string());
+            let mmdd = &input[pos..pos + 4];
+            // MMDD must name a real month and day (29 February exists in leap years)
+            let month: u32 = mmdd[0..2].parse().unwrap_or(0);
+            let day: u32 = mmdd[2..4].parse().unwrap_or(0);
+            if chrono::NaiveDate::from_ymd_opt(2000, month, day).is_none() {
+                return Err(ParseError::InvalidFormat {
+                    message: format!("Field 61 invalid entry date (MMDD): {}", mmdd),
+                });
+            }
+            entry_date = Some(mmdd.to_string());
             pos += 4;
         }
 
